@@ -176,7 +176,9 @@ def impl(case):
         elv = (np.array(a[2], dtype=np.float64) / scale).astype(dt) if not mode else np.array(a[2], dtype=dt)
         nod = nodata if mode else nodata / scale
         before = elv.copy()
-        mask = np.array(a[6], dtype=bool) if hm else None
+        # the river mask is tested for truth per cell: a 0/1 mask of an integer type (a band read from a file) means the same
+        # as the boolean one (round-5 seed)
+        mask = np.array(a[6], dtype=[bool, np.uint8, np.int64][(sum(a[6]) + nr) % 3]) if hm else None
         if call["via"] == "kernel":
             st, v = call_impl(dem.dig_4connectivity, ds_array(ds), np.array(a[1], dtype=np.int32), elv, (nr, nc), mask, nod, 1 / 1024.0)
             out_seq = None
